@@ -1,7 +1,7 @@
 #!/usr/bin/env bash
 # usage: tools/sweep.sh <tier> <seed> [<seed>...]  - every check once per seed, from fresh processes
 tier="$1"; shift
-cd /verif
+cd "$(dirname "${BASH_SOURCE[0]}")/.."
 for seed in "$@"; do
   for p in C01 C02 C03 C04 C05 C06 C07 C08 C09 C10 C11 C12 C13 C14 C15 C16 C17 C18; do
     t0=$(date +%s)
